@@ -24,7 +24,10 @@ static inline FormattedToken_FormatSpec *std_optional_FormattedToken_FormatSpec_
 #define TM_NONE 0
 #define TM_TRUNCATE 1
 #define TM_TRUNCATE_ONLY 2
-#define SPEC_VALID(sp) ((sp).align >= 0 && (sp).align <= 3 && (sp).truncateMode >= 0 && (sp).truncateMode <= 2)
+#define SPEC_ENUMS_VALID(sp) ((sp).align >= 0 && (sp).align <= 3 && (sp).truncateMode >= 0 && (sp).truncateMode <= 2)
+/* A-alloc for padding: a spec that PADS to a width produces that many characters; a padding width above the QString size limit is
+ * memory exhaustion (outside the model).  A truncate-only width is a maximum, produces nothing, and is NOT restricted. */
+#define SPEC_VALID(sp) (SPEC_ENUMS_VALID(sp) && ((sp).align == AL_NONE || (sp).truncateMode == TM_TRUNCATE_ONLY || (sp).width <= LEN_MAX))
 #define CSTR_OK(c) (CSTR_VALID(c) && (c).len <= LEN_MAX)
 #define LMSG_OK(l) (QSTRING_IS_VALUE((l)->m_message) && QSTRING_VALID((l)->m_formattedMessage) && CSTR_OK((l)->m_context.file) && CSTR_OK((l)->m_context.function) \
     && CSTR_OK((l)->m_context.category) && QTMSGTYPE_VALID((l)->m_type))
@@ -43,7 +46,7 @@ __CPROVER_ensures(QBYTEARRAY_VALID(__CPROVER_return_value) && __CPROVER_return_v
 std_optional_FormatSpec FormattedToken_parseFormatSpec(QString specString)
 __CPROVER_requires(QSTRING_VALID(specString))
 __CPROVER_assigns()
-__CPROVER_ensures(IS_BOOL(__CPROVER_return_value.has) && (!__CPROVER_return_value.has || (__CPROVER_return_value.v.width > 0 && SPEC_VALID(__CPROVER_return_value.v))))
+__CPROVER_ensures(IS_BOOL(__CPROVER_return_value.has) && (!__CPROVER_return_value.has || (__CPROVER_return_value.v.width > 0 && SPEC_ENUMS_VALID(__CPROVER_return_value.v))))
 __CPROVER_ensures(ENS_C12_PARSE);
 
 /* applyPadding(value): proved in contracts/C14/tokens.spec.c */
